@@ -13,6 +13,7 @@ import (
 	"io"
 	"net"
 	"net/http"
+	"strings"
 	"sync"
 	"time"
 
@@ -115,7 +116,12 @@ func DialStream(localIP, remote string, tlsCfg *tls.Config) (*StreamClient, erro
 	if localIP != "" {
 		d.LocalAddr = &net.TCPAddr{IP: net.ParseIP(localIP)}
 	}
-	raw, err := d.Dial("tcp", remote)
+	network := "tcp"
+	if strings.HasPrefix(remote, "@") { // abstract unix socket
+		network = "unix"
+		d.LocalAddr = nil
+	}
+	raw, err := d.Dial(network, remote)
 	if err != nil {
 		return nil, err
 	}
